@@ -1302,7 +1302,7 @@ func c07Parked(w *World, r *Report, rule string, fn *ssa.Function, inQ *types.Na
 		seen, known := false, false
 		for v, t := range e.State.Facts {
 			if c, ok := v.(*ssa.Call); ok && sCallee(c) == isAcked {
-				seen, known = t, true
+				seen, known = seen || t, true
 			}
 		}
 		if !known || seen {
